@@ -170,6 +170,7 @@ S = {
  "C20-r4-2": ("C20", "parser", "loop scopes restored with the break depth for both stacks; needs a loop inside a switch case and a later stray continue", ["C20"]),
 }
 only = sys.argv[1:]
+SEED = os.environ.get("VERIF_SEED", "1")  # at other seeds nothing is written: the run only measures how reliably a change is reported
 rows = []
 for name in sorted(S):
     if only and name not in only:
@@ -194,11 +195,12 @@ for name in sorted(S):
             "needs_to_manifest": needs, "demo": {"file": "demo_test.go", "package_dir": pkg, "confirmed": "demo passes on the clean tree, fails with the patch; the pinned suite passes with the patch (tools/try_seed.sh)"},
             "ran": ["git -C /repo apply seeded/%s/patch.diff; ./run.sh %s quick; git -C /repo checkout -- ." % (name, i) for i in ids],
             "results": res, "caught_by": [i for i in ids if res[i]["exit"] == 1]}
-    json.dump(meta, open(os.path.join(d, "meta.json"), "w"), indent=1)
+    if SEED == "1":
+        json.dump(meta, open(os.path.join(d, "meta.json"), "w"), indent=1)
     rows.append((name, prop, needs, res))
     print(name, {i: (v["exit"], v["first_clause"]) for i, v in res.items()}, flush=True)
 subprocess.run(["rm", "-rf", os.path.join(ROOT, "replays")])
-if not only:
+if not only and SEED == "1":
     with open(os.path.join(ROOT, "seeded", "MATRIX.md"), "w") as f:
         f.write("| seeded change | property | what it needs to manifest | quick checks that report it (clause) |\n|---|---|---|---|\n")
         for name, prop, needs, res in rows:
